@@ -60,7 +60,11 @@ func vfKindOfStack(st string) string {
 			for t.Kind() == reflect.Ptr {
 				t = t.Elem()
 			}
-			m[t.String()] = k.Name // e.g. "builder.RequestBuilder"
+			pp := t.PkgPath()
+			if i := strings.LastIndex(pp, "/"); i >= 0 {
+				pp = pp[i+1:]
+			}
+			m[pp+"."+t.Name()] = k.Name // e.g. "builder.RequestBuilder" (directory name, as in stack frames)
 			return true
 		})
 		vfTypeToKind = m
@@ -91,6 +95,9 @@ func vfClass(text string) string {
 	}
 	if strings.HasPrefix(text, "start sarama producer with address []") {
 		return "start sarama producer with address [] failed"
+	}
+	if strings.HasPrefix(text, "start sarama producer with address [") {
+		return "start sarama producer with address [<brokers>] failed"
 	}
 	if strings.HasPrefix(text, "create pipeline map failed") {
 		if strings.Contains(text, "more than once") {
@@ -137,6 +144,9 @@ func vfGenPolicyTree(g *vfG, kindName string, i int) map[string]interface{} {
 		// keep waiting short: zero/negative/absent waitDuration means 500 ms per attempt in the code
 		// under test, which is a cost issue for the harness, not a correctness dimension
 		tree["waitDuration"] = g.pick("resilience[].waitDuration", "dur", "1ms", "1ns", "2ms")
+		if v, ok := tree["maxAttempts"].(int); ok && v > 4 {
+			tree["maxAttempts"] = 4 // exponential back-off over many attempts is a cost issue only
+		}
 	case "CircuitBreaker":
 		tree["name"] = g.pick("resilience[].name", "cb-name", "cb1", "cb2")
 		// window sizes are lengths of allocated slices: keep them small
@@ -320,6 +330,10 @@ func (r *vfRunner) fail(defaultKind, phase, text, site, filterKind, extra string
 	if filterKind != "" {
 		kind = filterKind
 	}
+	if strings.HasPrefix(text, "start sarama producer with address [") && !strings.HasPrefix(text, "start sarama producer with address []") {
+		r.vf.Class("environment-panic kind=" + kind)
+		return true // no Kafka broker in the sandbox: environment, not a violation
+	}
 	key := vfKey2(kind, site, text)
 	if info != nil && info.DanglingNS && (strings.Contains(text, "interface conversion") || strings.Contains(text, "nil pointer")) && phase == "Handle" {
 		key = "flow-node-namespace-without-request panic=" + vfClass(text)
@@ -420,7 +434,7 @@ func TestVerifC13Pipeline(t *testing.T) {
 		cur := p
 		defer func() { vfRecover(func() { cur.Close() }) }()
 
-		nreq := rapid.IntRange(1, 6).Draw(rt, "nreq")
+		nreq := 1 + vfUniform(rt, "nreq", 6)
 		handled := 0
 		var classes []string
 		for i := 0; i < nreq; i++ {
@@ -529,7 +543,7 @@ func TestVerifC13GlobalFilter(t *testing.T) {
 		main.Init(pspec, vfMapper)
 		defer main.Close()
 
-		nreq := rapid.IntRange(1, 4).Draw(rt, "nreq")
+		nreq := 1 + vfUniform(rt, "nreq", 4)
 		handled := 0
 		var classes []string
 		for i := 0; i < nreq; i++ {
@@ -583,6 +597,14 @@ func TestVerifC13Resilience(t *testing.T) {
 		g := vfNewG(rt, env.pools)
 		kindName := g.pick("policy", "kind", "Retry", "CircuitBreaker")
 		tree := vfGenPolicyTree(g, kindName, 0)
+		hugeWait := false
+		if kindName == "Retry" && g.chance("waitDuration", "huge", 8) {
+			// the largest duration Go can parse; every call of this case runs with a context that is
+			// already cancelled (client gone), so the wrapper can never actually sleep that long
+			tree["waitDuration"] = "2562047h"
+			hugeWait = true
+			g.bounds["waitduration:max-duration"] = true
+		}
 		text := vfToYAML(tree)
 		pol, err := resilience.NewPolicy(vfFromYAML(text))
 		if err != nil {
@@ -602,11 +624,11 @@ func TestVerifC13Resilience(t *testing.T) {
 			r.fail(kindName, "CreateWrapper", txt, site, "", "", nil)
 			return
 		}
-		ncalls := rapid.IntRange(1, 12).Draw(rt, "ncalls")
+		ncalls := 1 + vfUniform(rt, "ncalls", 12)
 		var hist []string
 		for i := 0; i < ncalls; i++ {
 			script := rapid.SliceOfN(rapid.SampledFrom([]string{"ok", "err", "slow-ok", "err"}), 1, 4).Draw(rt, "script")
-			cancelled := vfChance(rt, "cancelled", 10)
+			cancelled := vfChance(rt, "cancelled", 10) || hugeWait
 			attempt := 0
 			h := func(ctx stdcontext.Context) error {
 				s := script[attempt%len(script)]
